@@ -61,9 +61,30 @@ def gen_weak_coupling(rng):
     return {"exact": False, "dp": 9, "cls": "core", "ops": ops}
 
 
+def gen_small_ints(rng):
+    """moves among small integers, one axis at a time (consecutive points differ by exactly one unit)"""
+    ops = [X.gen_xf_op(rng, True, {"log": 0.0, "max": 6.0}) for _ in range(rng.randint(0, 2))]
+    pos = [float(rng.randint(-3, 3)) for _ in range(3)]
+    ops.append(("move", list(pos), None))
+    rel = rng.random() < 0.5
+    if rel:
+        ops.append(("dist", "rel"))
+    for _ in range(rng.randint(8, 25)):
+        i = rng.randrange(3)
+        step = float(rng.choice([-1, 1]))
+        pos[i] += step
+        req = [None, None, None]
+        req[i] = step if rel else pos[i]
+        ops.append((rng.choice(["move", "rapid"]), req, None))
+    exact = all(X.is_exact_op(o) for o in ops)
+    return {"exact": exact, "dp": 5, "cls": "core", "ops": ops}
+
+
 def gen_case(rng):
     if rng.random() < 0.08:
         return gen_weak_coupling(rng)
+    if rng.random() < 0.08:
+        return gen_small_ints(rng)
     exact = rng.random() < 0.45
     budget = {"log": 0.0, "max": 6.0 if exact else 4.0}
     ops = []
